@@ -200,6 +200,13 @@ func runCase(run *vf.Run, raw json.RawMessage, dir string) *vf.Result {
 	if len(chk.Findings) > 0 {
 		// keep the trace excerpt around the publishing calls as witness
 		for i, lp := range logs {
+			relevant := false
+			for _, f := range chk.Findings {
+				relevant = relevant || f.Phase == i
+			}
+			if !relevant {
+				continue
+			}
 			for _, l := range excerpt(lp, root) {
 				res.Logf("trace[%d] %s", i, l)
 			}
